@@ -34,6 +34,9 @@ def js(r, t):
     return math.sqrt(max(0.0, (kl(p, m) + kl(q, m)) / 2))
 
 
+NOADOPT = object()
+
+
 class HDMModel:
     def __init__(self, divergence, detect_batch, statistic, significance):
         self.div = {"H": hellinger, "KL": js}.get(divergence, divergence) if isinstance(divergence, str) else divergence
@@ -70,8 +73,8 @@ class HDMModel:
             return self._process(proxy, None)
         return None
 
-    def update(self, X, boot_eps=None, adopt=None):
-        """adopt: None, or the implementation's state; it is followed when the model's own decision is a near-tie"""
+    def update(self, X, boot_eps=None, adopt=NOADOPT):
+        """adopt: NOADOPT, or the implementation's state (None / "drift"); it is followed when the model's own decision is a near-tie"""
         if self.state == "drift":
             self._start_epoch()
         return self._process(np.array(X, float), boot_eps, adopt)
@@ -85,7 +88,7 @@ class HDMModel:
             fd.append(float(self.div(hist(ref[:, f], bins, lo, hi), hist(X[:, f], bins, lo, hi))))
         return fd, bins
 
-    def _process(self, X, boot_eps, adopt=None):
+    def _process(self, X, boot_eps, adopt=NOADOPT):
         self.total += 1
         self.bsr += 1
         nref = len(self.ref)
@@ -122,7 +125,7 @@ class HDMModel:
                 self.cmp.begin()
                 drift = self.cmp.gt(e, beta, max(abs(e), abs(beta), 1e-3), zero_decisive=False)
                 out["near"] = bool(self.cmp.near_indices())
-                if out["near"] and adopt is not None and (adopt == "drift") != drift:
+                if out["near"] and adopt is not NOADOPT and (adopt == "drift") != drift:
                     drift = not drift
                     out["adopted"] = True
             self.eps.append(e)
